@@ -88,7 +88,7 @@ fn family<const D: usize>(id: &str, rng: &mut Rng, out: &mut Out) {
 
 pub fn run(cfg: &Cfg, rng: &mut Rng, out: &mut Out) {
     let thorough = cfg.tier == "thorough";
-    let n = if thorough { 600 } else { 60 };
+    let n = if thorough { 3000 } else { 600 };
     for i in 0..n {
         let id = format!("g{i}");
         match 1 + (i % 5) {
